@@ -140,6 +140,7 @@ class Built:
         self.functions = set()
         self.notes = []
         self.extras = {}
+        self.flags = set()
 
 
 def build(tp: Template, cfg: Cfg) -> Built:
@@ -238,6 +239,7 @@ def build(tp: Template, cfg: Cfg) -> Built:
                     b.side += sem.side
                     b.constructs |= sem.constructs
                     b.notes += sem.notes
+                    b.flags |= getattr(sem, "flags", set())
                 except (SubqueryError, NotSupportedError) as e:
                     b.status[key] = f"refused:{type(e).__name__}"
                 except Exception as e:  # noqa: BLE001
@@ -489,7 +491,10 @@ def check_pair(tp: Template, b: Built, cfg: Cfg, a: str, c: str, *, want_seq: bo
     if want_seq and rt is not None and rt._ordered and rt._order_keys and not getattr(rt, "_tie_unspec", False):
         jobs.append(("sequence", K.seq_eq(A, C), final_total_order_def(rt), True))
     for nm, eq, extra_def, ordered in jobs:
-        o = Obl(tp.name, f"{label}/{nm}")
+        kind = f"{label}/{nm}"
+        if ordered and "order-through-subquery" in b.flags and "sqlite" in (a, c):
+            kind += "/order-through-subquery"
+        o = Obl(tp.name, kind)
         try:
             r, model, dt = solve(cons + defs + extra_def + [K.Not(eq)], cfg.timeout_ms)
         except z3.Z3Exception as e:
@@ -625,6 +630,7 @@ def validate_models(tp: Template, b: Built, cfg: Cfg, rng: random.Random) -> lis
         agree = tried = 0
         mismatch = None
         engine_error = None
+        order_bad = None
         for _ in range(cfg.validate_samples):
             inputs = {name: random_rows(schema, b.syms[name].nmax, rng, tp) for name, schema in tp.sources}
             subs = []
@@ -658,6 +664,17 @@ def validate_models(tp: Template, b: Built, cfg: Cfg, rng: random.Random) -> lis
                 agree += 1
             else:
                 mismatch = {"inputs": inputs, "model": rows_m, "real": rows_r, "names": names}
+            # row order: the real engine against REF's sequence when the final order is fixed
+            rt = b.__dict__.get("ref_table")
+            if rt is not None and tp.seq and rt._ordered and rt._order_keys and not getattr(rt, "_tie_unspec", False) and order_bad is None:
+                try:
+                    tot = all(z3.is_true(mdl.eval(c, model_completion=True)) for c in final_total_order_def(rt))
+                    if tot and set(names) == set(b.rel["ref"].names):
+                        ref_seq = K.concrete_rows(b.rel["ref"].project(names), mdl, ordered=True)
+                        if same_rows(ref_seq, rows_r, False) and not same_rows(ref_seq, rows_r, True):
+                            order_bad = {"inputs": inputs, be: rows_r, "ref": ref_seq}
+                except Exception:  # noqa: BLE001
+                    pass
         if engine_error is not None:
             o.status = "engine-error"
             o.detail = {"tried": tried, "agree": agree, **engine_error}
@@ -844,6 +861,9 @@ def type_obligations(tp: Template, b: Built, cfg: Cfg, rng: random.Random) -> li
         o.status = "structural-ok" if bad is None else "structural-fail"
         o.detail = bad or {"tried": tried}
         out.append(o)
+        if order_bad is not None:
+            kind = f"validate-order:{be}" + ("/order-through-subquery" if "order-through-subquery" in b.flags and be == "sqlite" else "")
+            out.append(Obl(tp.name, kind, "violation", detail=order_bad))
     return out
 
 
